@@ -183,7 +183,7 @@ def ground_formula(f, pos, terms, cap=120, depth=0):
 def symbols_of(f, cache={}):
     k = f.get_id()
     if k in cache:
-        return cache[k]
+        return cache[k][1]
     out, todo, seen = set(), [f], set()
     while todo:
         x = todo.pop()
@@ -196,7 +196,7 @@ def symbols_of(f, cache={}):
             if x.decl().kind() == z3.Z3_OP_UNINTERPRETED:
                 out.add(x.decl().name())
             todo.extend(x.children())
-    cache[k] = out
+    cache[k] = (f, out)      # keeps the term alive: z3 recycles the ids of collected ASTs
     return out
 
 
@@ -259,12 +259,14 @@ def ground_solver(assertions, timeout_ms, nscope=8, nterms=14, cap=120):
             todo.append(x.body())
         elif z3.is_app(x):
             if z3.is_const(x) and x.decl().kind() == z3.Z3_OP_UNINTERPRETED and z3.is_int(x) and '.n!' in x.decl().name():
-                lens[x.decl().name().rsplit('.n!', 1)[0]] = x
+                lens[tuple(x.decl().name().rsplit('.n!', 1))] = x
             todo.extend(x.children())
     for a in arrs:
         nm = a.decl().name()
         if '.cnt!' in nm and a.sort().range() == z3.IntSort():
-            n = lens.get(nm.rsplit('.cnt!', 1)[0])
+            # a list's multiplicity array X.cnt!k and its length X.n!(k+1) are created together (consecutive fresh names)
+            pre, idx = nm.rsplit('.cnt!', 1)
+            n = lens.get((pre, str(int(idx) + 1))) if idx.isdigit() else None
             if n is not None:
                 total = z3.IntVal(0)
                 for i, t in enumerate(scope):
@@ -280,6 +282,61 @@ def ground_solver(assertions, timeout_ms, nscope=8, nterms=14, cap=120):
         else:
             s.add(h)
     return s
+
+
+def lazy_ground(assertions, timeout_ms, nscope, nterms, cap, log, t0, max_iter=80, batch=40):
+    """model search for the finite-scope weakening by lazy refinement: solve the ground assertions that share symbols with the
+    negated goal, evaluate ALL ground assertions under the model found, add the violated ones, repeat.  Each query is small; the
+    result (if any) satisfies every ground assertion and is then validated against the full VC like every other candidate."""
+    full = ground_solver(assertions, timeout_ms, nscope, nterms, cap)
+    G = list(full.assertions())
+    if not G:
+        return None
+    goal_syms = symbols_of(G[-1]) if False else None
+    # the negated goal is the last of the original assertions; find its ground counterpart(s): QF assertions are added verbatim
+    neg_goal = assertions[-1]
+    seeds = set()
+    try:
+        seeds = set(symbols_of(neg_goal))
+    except Exception:
+        pass
+    active, rest = [], []
+    for g in G:
+        try:
+            sy = symbols_of(g)
+        except Exception:
+            sy = set()
+        (active if (seeds & set(sy)) and len(str(g.sexpr())) < 20000 else rest).append(g)
+    s = z3.Solver()
+    s.set('timeout', min(timeout_ms, 15000))
+    for g in active:
+        s.add(g)
+    for it in range(max_iter):
+        r = s.check()
+        if r != z3.sat:
+            log.append((f'z3-5.1(api) lazy-ground scope={nscope} iteration {it} ({len(G) - len(rest)}/{len(G)} assertions)', str(r), round(time.time() - t0, 3)))
+            return None
+        m = s.model()
+        viol = []
+        for g in rest:
+            try:
+                v = m.eval(g, model_completion=True)
+                if not z3.is_true(v):
+                    viol.append(g)
+            except Exception:
+                viol.append(g)
+        if not viol:
+            log.append((f'z3-5.1(api) lazy-ground scope={nscope}: model after {it + 1} iterations ({len(G) - len(rest)}/{len(G)} assertions solved, all satisfied)',
+                        'sat', round(time.time() - t0, 3)))
+            return m
+        viol.sort(key=lambda g: g.get_id())
+        take = viol[:batch]
+        ids = set(g.get_id() for g in take)
+        rest = [g for g in rest if g.get_id() not in ids]
+        for g in take:
+            s.add(g)
+    log.append((f'z3-5.1(api) lazy-ground scope={nscope}', 'gave up', round(time.time() - t0, 3)))
+    return None
 
 
 def to_smt2(ob, ground=False):
@@ -510,12 +567,23 @@ def solve_one(args):
                     if r1 != z3.sat:
                         continue
                 break
+            lazy_m = None
+            if s is None or s.check() != z3.sat:
+                for (ns, nt, cp) in ((4, 5, 30), (8, 14, 120)):
+                    lazy_m = lazy_ground(allas, Z3_MS, ns, nt, cp, log, t0)
+                    if lazy_m is not None:
+                        break
             for attempt in range(3):
-                r = s.check()
-                log.append(('z3-5.1(api) ground-instances', str(r), round(time.time() - t0, 3)))
-                if r != z3.sat:
-                    break
-                m = s.model()
+                if lazy_m is not None:
+                    if attempt > 0:
+                        break
+                    m = lazy_m
+                else:
+                    r = s.check()
+                    log.append(('z3-5.1(api) ground-instances', str(r), round(time.time() - t0, 3)))
+                    if r != z3.sat:
+                        break
+                    m = s.model()
                 # validate the candidate against the full VC: fix every constant to its model value
                 s2 = z3.Solver()
                 s2.set('timeout', Z3_MS)
@@ -541,7 +609,7 @@ def solve_one(args):
                 if r2 == z3.sat:
                     return idx, 'sat', 'z3-5.1(api) ground-instances+validation', time.time() - t0, model_dict(s2.model()), log
                 cand = model_dict(m)
-                if attempt == 2 or not block:
+                if attempt == 2 or not block or lazy_m is not None:
                     return idx, 'candidate', 'z3-5.1(api) ground-instances', time.time() - t0, cand, log
                 s.add(z3.Or(block))
         except Exception as e:
